@@ -7,7 +7,7 @@ from py2coq import c34perm
 
 ID = 'C34'
 LEVEL = 'proof'
-PROPS = ['Props/C34.v', 'Findings/C34.v']
+PROPS = ['Props/C34.v']       # no known finding left: Findings/C34.v was dropped with the has_perm repairs (02ae3a6)
 GEN = [('Gen/C34Src.v', c34perm.generate)]
 TRUSTED = [
     'hand-written model Model/C34Perm.v of has_perm (entity / attribute / object branches), can_view, can_edit and the object filter of Database.to_json, '
@@ -328,12 +328,11 @@ def replay(ctx, data):
     return None
 
 
-LEVEL_TEXT = ('Machine-checked proof (Coq 8.16.1) over an executable model of has_perm for all schemas, rule sets, users, objects and providers: the entity branch equals '
-              'the specification; the object branch equals it except that entity exclusions are ignored (exact: equal iff no applicable rule excludes the object\'s entity, '
-              'and equal outright if the source tested the entity); the attribute branch is given in closed form and equals the specification for attributes without '
-              'reverse and - if the inner loop iterated the reverse rules and missing reverse rules did not short-circuit - for all attributes; can_view, to_json\'s '
-              'filter and the stability of repeated checks under changing providers are proved. The three deviations are refuted by witnesses and recorded as known '
-              'findings. The variation points are re-read from the source each run and the whole decision table is compared with the real API exhaustively in a small scope.')
+LEVEL_TEXT = ('Machine-checked proof (Coq 8.16.1) over an executable model of has_perm: for all schemas, rule sets (in any iteration order), users, objects and providers '
+              'has_perm equals the specification written from the statement - entity, attribute (relationship attributes with exclusions on either side) and object branch; '
+              'can_view = view or edit; to_json includes only objects the specification lets the user view and refuses exactly otherwise; repeated checks in a session are stable '
+              'under changing providers. The model carries the three decision-relevant variation points of the source as parameters; their values are re-read from /repo on every '
+              'run (the repaired spellings are required by the property theorems) and the whole decision table is compared with the real API exhaustively in a small scope.')
 LEVEL_NOTE = ('Trusted: Coq kernel + vm_compute; the hand-written model (tied by exhaustive small-scope correspondence and by the source recogniser, not by translation); my '
               'reading of the statement for attribute checks (either side of a relationship may grant). Not modelled: hidden attributes in the correspondence run, '
               'inheritance (_subclasses_ in exclude / set_perms_for), the schema part of to_json, create/delete permissions (same code path as view/edit).')
